@@ -580,3 +580,134 @@ func TestVerif_C18_InterNode(t *testing.T) {
 		}
 	})
 }
+
+// c18ExchangeMany sends several framed commands back to back on ONE
+// connection, half-closes, and returns everything the server sent.
+func c18ExchangeMany(addr string, cmds []*proto.Command) ([]byte, error) {
+	conn, err := net.DialTimeout("tcp", addr, 10*time.Second)
+	if err != nil {
+		return nil, err
+	}
+	defer conn.Close()
+	buf := []byte{MuxClusterHeader}
+	for _, c := range cmds {
+		p, err := pb.Marshal(c)
+		if err != nil {
+			return nil, err
+		}
+		buf = binary.LittleEndian.AppendUint64(buf, uint64(len(p)))
+		buf = append(buf, p...)
+	}
+	if _, err := conn.Write(buf); err != nil {
+		return nil, err
+	}
+	if err := conn.(*net.TCPConn).CloseWrite(); err != nil {
+		return nil, err
+	}
+	conn.SetReadDeadline(time.Now().Add(30 * time.Second))
+	return io.ReadAll(conn)
+}
+
+// TestVerif_C18_InterNodeSeq: permission decisions are per command, not per
+// connection. 2-4 commands with independently drawn credential presentations
+// share one connection (as they do on the client's pooled connections); an
+// authorized command earlier on the connection must not open the door for a
+// later unauthorized one, and vice versa.
+func TestVerif_C18_InterNodeSeq(t *testing.T) {
+	rec := vstat.New(t, "C18", "internode-seq",
+		"rapid: credentials file as in unit internode; 2-4 commands (all types with a permission except the streaming BACKUP_STREAM and the undetermined non-voter JOIN) each with its own presentation, written back to back on one raw connection; expected: the i-th response frame says \"unauthorized\" exactly for the unauthorized commands, and the sequence of action methods invoked equals the actions of the authorized commands in order; non-trivial = the sequence mixes authorized and unauthorized commands; distinct by (file, sequence)")
+	var cmds []c18Cmd
+	for _, c := range c18Commands() {
+		if !strings.HasPrefix(c.Name, "BACKUP_STREAM") && c.Name != "JOIN_NONVOTER" {
+			cmds = append(cmds, c)
+		}
+	}
+	rapid.Check(t, func(rt *rapid.T) {
+		users := c18GenUsers(rt)
+		file := c18CredFile(users)
+		m := c18Build(users)
+		press := c18Presentations(m)
+		n := rapid.IntRange(2, 4).Draw(rt, "n")
+		type item struct {
+			cmd  c18Cmd
+			pres c18Pres
+			auth bool
+		}
+		var seq []item
+		var wire []*proto.Command
+		var names []string
+		nAuth := 0
+		for i := 0; i < n; i++ {
+			it := item{cmd: cmds[rapid.IntRange(0, len(cmds)-1).Draw(rt, "cmd")], pres: press[rapid.IntRange(0, len(press)-1).Draw(rt, "pres")]}
+			it.auth = c18Sat(m, it.pres.Creds, it.cmd.Required)
+			if it.auth {
+				nAuth++
+			}
+			c := it.cmd.Make()
+			c.Credentials = it.pres.Creds
+			wire = append(wire, c)
+			seq = append(seq, it)
+			names = append(names, fmt.Sprintf("%s/%s/auth=%v", it.cmd.Name, it.pres.Name, it.auth))
+		}
+		canon := file + "|" + strings.Join(names, ",")
+		rec.Case(nAuth > 0 && nAuth < n, canon)
+		rec.Sample(canon)
+		node, err := c18Start(file)
+		if err != nil {
+			rt.Skipf("infrastructure: %v", err)
+		}
+		defer node.stop()
+		all, xerr := c18ExchangeMany(node.ln.Addr().String(), wire)
+		if xerr != nil && len(all) == 0 {
+			rec.Label("exchange-error")
+			return
+		}
+		calls := c18Actions(node.rec.take())
+		var want []string
+		for _, it := range seq {
+			if it.auth {
+				want = append(want, it.cmd.Action)
+			}
+		}
+		fail := func(what string) {
+			sig := "C18/internode-decision-not-per-command"
+			if rec.KnownHit(sig, what) {
+				return
+			}
+			rt.Fatalf("%s", rec.Violation(sig, "%s :: sequence=%v calls=%v want=%v file=%s received=%d bytes", what, names, calls, want, file, len(all)))
+		}
+		if strings.Join(calls, ",") != strings.Join(want, ",") {
+			fail("actions performed on the connection differ from the actions of the authorized commands")
+			return
+		}
+		rest := all
+		for i, it := range seq {
+			if len(rest) < 8 {
+				fail(fmt.Sprintf("response frame %d missing", i))
+				return
+			}
+			sz := binary.LittleEndian.Uint64(rest[:8])
+			if sz > uint64(len(rest)-8) {
+				fail(fmt.Sprintf("response frame %d truncated", i))
+				return
+			}
+			e, derr := it.cmd.RespError(rest[8 : 8+sz])
+			rest = rest[8+sz:]
+			if derr != nil {
+				fail(fmt.Sprintf("response frame %d does not decode: %v", i, derr))
+				return
+			}
+			if (e == "unauthorized") != !it.auth {
+				fail(fmt.Sprintf("response %d has error %q but the command is authorized=%v", i, e, it.auth))
+				return
+			}
+			if !it.auth && c18ContainsSentinel(all[len(all)-len(rest)-int(sz)-8:len(all)-len(rest)]) {
+				fail(fmt.Sprintf("response %d to an unauthorized command contains the sentinel", i))
+				return
+			}
+		}
+		if len(rest) != 0 {
+			fail(fmt.Sprintf("%d unexpected bytes after the last response", len(rest)))
+		}
+	})
+}
